@@ -37,7 +37,7 @@ CLAUSES = {
     "part-count and part-header-size limits are enforced": "limits_enforced_parts, limits_enforced_parts_reject, limits_enforced_header",
 }
 PARALLEL = True
-CASE_TIMEOUT = 20
+CASE_TIMEOUT = 120   # pure functions: only a runaway mutant gets here; generous because the pool may be starved on a loaded machine
 
 NAMES = ["a", "b", "field", "a b", "x;y", "q\"uote", "back\\slash", "\"quoted\"", "tr\\", "é", "名前", "<angle>", "a=b", " lead", "trail ",
          "'tick'", "semi;\"colon", "a\tb", "%41", "a*", "utf-8''x", "\\\"", "\\\\", "😀", "a\xa0", "x" * 40]
@@ -179,9 +179,9 @@ def _mutations(body):
 
 
 def gen_cases(rng, tier):
-    n_form = {"quick": 1100, "thorough": 40000, "search": 1500}[tier]
-    n_raw = {"quick": 500, "thorough": 10000, "search": 600}[tier]
-    n_mut_bodies = {"quick": 2, "thorough": 40, "search": 3}[tier]
+    n_form = {"quick": 1100, "thorough": 60000, "search": 1500}[tier]
+    n_raw = {"quick": 500, "thorough": 30000, "search": 600}[tier]
+    n_mut_bodies = {"quick": 2, "thorough": 120, "search": 3}[tier]
     for _ in range(n_form):
         yield _form_case(rng)
     for _ in range(n_form // 3):
